@@ -487,6 +487,8 @@ class FnTranslator:
         s.decls = []
         s.declared = set()
         s.callees = set()
+        s.scoped_calls = set()
+        s.scoped_pending = []
         s.globals_used = set()
         s.allocas = {}          # C name of alloca pointer -> C name of slot
         s.slot_alias = {}       # C name of derived pointer (constant GEP / bitcast of an alloca) -> (slot lvalue expr, slot base name)
@@ -653,6 +655,12 @@ class FnTranslator:
                 for line in s.instr(st2, b, phis):
                     lines.append(line + tag)
             code[b] = lines
+        if s.scoped_pending:
+            def scoped_name(mm_):
+                c_, h_ = s.scoped_pending[int(mm_.group(1))]
+                lab_ = s.loop_label(h_) if h_ is not None else 'TOP'
+                s.scoped_calls.add((c_, lab_)); return lab_
+            for b_ in code: code[b_] = [re.sub(r'@SCOPE(\d+)@', scoped_name, ln_) for ln_ in code[b_]]
         order = [b for b in fn.blocks if b in reach]
         s.sunk = collections.defaultdict(list); s.sunk_names = set(); s.sunk_at = {}
         if s.opts.get('sink_locals') and s.loops:
@@ -831,7 +839,7 @@ class FnTranslator:
         hits = []
         for x in labs:
             lab, needle = x[1], x[2]; k = x[3] if len(x) > 3 else None
-            cands = sorted([h for h in s.loops if needle in text(h)], key=lambda h: s.loop_lines[h][1])
+            cands = sorted([h for h in s.loops if needle in text(h)], key=lambda h: (s.loop_lines[h][1], -len(s.loops[h])))   # same line: the enclosing loop first
             if k is None:
                 if b in cands:
                     if len(cands) != 1: die("loop label %s of %s: %d loops contain %r (give an ordinal)" % (lab, s.fn.name, len(cands), needle))
@@ -844,6 +852,7 @@ class FnTranslator:
         return 'B_' + re.sub(r'[^A-Za-z0-9_]', '_', b)
 
     def instr(s, st, b, phis):
+        s.cur_block = b
         em = s.em
         out = []
         mm = re.match(r'^(%"[^"]*"|%[-a-zA-Z$._0-9]+) = (.*)$', st)
@@ -1086,6 +1095,14 @@ class FnTranslator:
         if n == '__cxa_allocate_exception': return '((uint8_t*)VERIF_new(%s))' % args[0]
         if n.startswith('llvm.'): die("intrinsic " + n)
         s.callees.add(callee)
+        if callee in (s.opts.get('_loop_scoped') or ()):
+            # unit option loop_scoped_stubs: the stub is called under a name that carries the label of the innermost enclosing loop of the
+            # call (TOP outside every loop), so that a harness can give two traversals of the same container type different cells
+            best = None; b = getattr(s, 'cur_block', None)
+            for h, body in s.loops.items():
+                if b in body and (best is None or len(body) < len(s.loops[best])): best = h
+            s.scoped_pending.append((callee, best))
+            return '%s__@SCOPE%d@(%s)' % (san(callee), len(s.scoped_pending) - 1, ', '.join(args))
         return '%s(%s)' % (san(callee), ', '.join(args))
 
 
@@ -1171,6 +1188,9 @@ def translate(path, cfg):
     opaque = set(stubs) | set(f for f in m.funcs if STD_RE.search(f) and not any(v.search(f) for v in verb))
     opts['_pw'] = ParamWrites(m, opaque, cfg.get('stub_writes'))
     opts['_loop_labels'] = cfg.get('loop_labels') or []
+    opts['_loop_scoped'] = set(cfg.get('loop_scoped_stubs') or [])
+    for f_ in opts['_loop_scoped']:
+        if f_ not in stubs: die('loop_scoped_stubs: %s is not listed under stubs' % f_)
     if opts.get('sink_locals') and cfg.get('dir'):
         ktxt = ''
         for fn_ in ('contracts.h', 'harness.c'):
@@ -1258,8 +1278,13 @@ def translate(path, cfg):
         # unit option stub_void_ptrs: pointers to structs in the prototypes of contract stubs become void* (the stubs cast where they look inside)
         if cfg.get('stub_void_ptrs') and isinstance(t, PtrTy) and isinstance(t.to, (NamedTy, LitStructTy)): return 'void*'
         return em.ctype(t)
+    scoped = {}
+    for f_, ft_ in fts.items():
+        for (c_, lab_) in sorted(ft_.scoped_calls): scoped.setdefault(c_, []).append(lab_)
     for f, (ret, ps) in protos.items():
-        if f in stubs: sigs.append('%s %s(%s);' % (stub_ty(ret), san(f), ', '.join(stub_ty(t) for t in ps) or 'void'))
+        if f in scoped:
+            for lab_ in sorted(set(scoped[f])): sigs.append('%s %s__%s(%s);' % (stub_ty(ret), san(f), lab_, ', '.join(stub_ty(t) for t in ps) or 'void'))
+        elif f in stubs: sigs.append('%s %s(%s);' % (stub_ty(ret), san(f), ', '.join(stub_ty(t) for t in ps) or 'void'))
         else: sigs.append('%s %s(%s);' % (em.ctype(ret), san(f), ', '.join(em.ctype(t) for t in ps) or 'void'))
     aliases = []
     for name, spec in (cfg.get('aliases') or {}).items():
@@ -1268,6 +1293,7 @@ def translate(path, cfg):
     for name, mangled in (cfg.get('names') or {}).items():
         short[mangled] = name
         aliases.append('#define %s %s' % (name, san(mangled)))
+        for lab_ in sorted(set(scoped.get(mangled, []))): aliases.append('#define %s__%s %s__%s' % (name, lab_, san(mangled), lab_))
     em.flush_pending()
     out = [PRELUDE]
     out += em.fwd
